@@ -23,8 +23,8 @@ type c15Sides struct {
 }
 
 // %s takes the '-' (or nothing)
-var c15LeftForms = []string{"{{ 1 %s}}", "{%% set q=1 %s%%}", "{%% if 1 %%}a{%% endif %s%%}", "{%% with w=1 %s%%}"}
-var c15RightForms = []string{"{{%s 2 }}", "{%%%s set r=2 %%}", "{%%%s if 1 %%}b{%% endif %%}", "{%%%s endwith %%}"}
+var c15LeftForms = []string{"{{ 1 %s}}", "{%% set q=1 %s%%}", "{%% if 1 %%}a{%% endif %s%%}", "{%% with w=1 %s%%}", "{{1%s}}", "{{ 7|add:1%s}}"}
+var c15RightForms = []string{"{{%s 2 }}", "{%%%s set r=2 %%}", "{%%%s if 1 %%}b{%% endif %%}", "{%%%s endwith %%}", "{{%s2}}", "{{%s2|add:1 }}"}
 
 var c15SideRunes = []string{" ", " ", "\t", "\n", "\r", "\r\n", "\v", "\f", " ", " ", "\u0085", "​", "x", "é", "-", "}", "%", "\x00", "\xff"}
 
@@ -40,7 +40,11 @@ func checkC15Sides(c any, r *Rec) error {
 	cs := c.(*c15Sides)
 	li, ri := cs.Left%len(c15LeftForms), cs.Right%len(c15RightForms)
 	if (li == 3) != (ri == 3) {
-		ri, li = 0, 0 // with ... endwith only as a pair
+		if li == 3 {
+			li = 0
+		} else {
+			ri = 0
+		} // with ... endwith only as a pair
 	}
 	lf, rf := c15LeftForms[li], c15RightForms[ri]
 	render := func(l, rr bool) (string, error) {
@@ -131,7 +135,7 @@ func checkC15Sides(c any, r *Rec) error {
 
 var _ = register(&propSpec{
 	ID:   "C15.sides",
-	Rule: "one literal text (0-8 pieces from: space, tab, CR, LF, CRLF, VT, FF, NBSP, EM SPACE, NEL, ZWSP, letters, '-', '}', '%', NUL, 0xFF) between two constructs ({{ }}, set, if/endif, with/endwith), rendered untrimmed, with '-' on the left only, on the right only and on both. Oracle: each '-' removes a prefix / suffix consisting of whitespace only, leaves no space/tab/CR/LF at its edge, changes no byte outside the text, and both together remove exactly what each removes alone. Non-trivial: something was removed and something of the text survived.",
+	Rule: "one literal text (0-8 pieces from: space, tab, CR, LF, CRLF, VT, FF, NBSP, EM SPACE, NEL, ZWSP, letters, '-', '}', '%', NUL, 0xFF) between two constructs ({{ }} with and without blanks inside, i.e. also '{{-2}}', set, if/endif, with/endwith), rendered untrimmed, with '-' on the left only, on the right only and on both. Oracle: each '-' removes a prefix / suffix consisting of whitespace only, leaves no space/tab/CR/LF at its edge, changes no byte outside the text, and both together remove exactly what each removes alone. Non-trivial: something was removed and something of the text survived.",
 	Gen: func(t *rapid.T) any {
 		var sb strings.Builder
 		n := drawInt(t, 0, 8, "n")
